@@ -5,9 +5,9 @@ import json, os, re, shutil, glob
 ROOT = '/verif/seeded'
 os.makedirs(ROOT, exist_ok=True)
 rows = []
-for out in sorted(glob.glob('/tmp/wt/C*-out')) + sorted(glob.glob('/tmp/wt2/C*-out')) + sorted(glob.glob('/tmp/wt3/C*-out')) + sorted(glob.glob('/tmp/wt4/C*-out')) + sorted(glob.glob('/tmp/wt5/C*-out')) + sorted(glob.glob('/tmp/wt6/C*-out')) + sorted(glob.glob('/tmp/wt7/C*-out')) + sorted(glob.glob('/tmp/wt8/C*-out')):
+for out in sorted(glob.glob('/tmp/wt/C*-out')) + sorted(glob.glob('/tmp/wt2/C*-out')) + sorted(glob.glob('/tmp/wt3/C*-out')) + sorted(glob.glob('/tmp/wt4/C*-out')) + sorted(glob.glob('/tmp/wt5/C*-out')) + sorted(glob.glob('/tmp/wt6/C*-out')) + sorted(glob.glob('/tmp/wt7/C*-out')) + sorted(glob.glob('/tmp/wt8/C*-out')) + sorted(glob.glob('/tmp/wt9/C*-out')):
     pid = os.path.basename(out)[:3]
-    rnd = 8 if out.startswith('/tmp/wt8') else 7 if out.startswith('/tmp/wt7') else 6 if out.startswith('/tmp/wt6') else 5 if out.startswith('/tmp/wt5') else 4 if out.startswith('/tmp/wt4') else 3 if out.startswith('/tmp/wt3') else (2 if out.startswith('/tmp/wt2') else 1)
+    rnd = 9 if out.startswith('/tmp/wt9') else 8 if out.startswith('/tmp/wt8') else 7 if out.startswith('/tmp/wt7') else 6 if out.startswith('/tmp/wt6') else 5 if out.startswith('/tmp/wt5') else 4 if out.startswith('/tmp/wt4') else 3 if out.startswith('/tmp/wt3') else (2 if out.startswith('/tmp/wt2') else 1)
     for n in (1, 2):
         r = os.path.join(out, f'result{n}.json')
         if not os.path.exists(r):
